@@ -794,3 +794,33 @@ Proof.
   split; [exact S1|]. split; [|exact S2].
   intros x [H1 H2]. apply (consistent_disjoint st' body newl x C'); auto.
 Qed.
+
+(* ---------- the boolean guard evaluated on the driver's cases implies split_guard ---------- *)
+Lemma nodupb_sound l : nodupb l = true -> NoDup l.
+Proof.
+  induction l as [|x r IH]; simpl; intro H; [constructor|]. apply andb_true_iff in H as [H1 H2].
+  constructor; [|auto]. intro Hin. apply memN_In in Hin. rewrite Hin in H1. discriminate.
+Qed.
+
+Lemma fresh_b_sound st x : fresh_b st x = true -> fresh_sv st x.
+Proof.
+  unfold fresh_b. intro H. apply andb_true_iff in H as [H1 H2]. apply negb_true_iff, N.eqb_neq in H1.
+  split; [exact H1|]. intro b. unfold vcount. destruct (aget N.eqb b (f_vox st)) as [arr|] eqn:A; [|reflexivity].
+  rewrite forallb_forall in H2. apply aget_some_in in A. apply N.eqb_eq. apply (H2 _ A).
+Qed.
+
+Theorem split_guard_b_sound st body newl masks sm :
+  split_guard_b st body newl masks sm = true -> split_guard st body newl masks sm.
+Proof.
+  unfold split_guard_b. intro H.
+  apply andb_true_iff in H as [H H6]. apply andb_true_iff in H as [H H5]. apply andb_true_iff in H as [H H4].
+  apply andb_true_iff in H as [H H3]. apply andb_true_iff in H as [H1 H2].
+  split; [now apply N.eqb_neq, negb_true_iff|]. split; [now destruct (get_idx st newl)|].
+  split; [now apply nodupb_sound|]. split; [now apply nodupb_sound|]. split.
+  - intros s sp re Hin. rewrite forallb_forall in H5. pose proof (H5 _ Hin) as Q. cbn [fst snd] in Q.
+    apply andb_true_iff in Q as [Q Q4]. apply andb_true_iff in Q as [Q Q3]. apply andb_true_iff in Q as [Q1 Q2].
+    split; [now apply N.eqb_neq, negb_true_iff|]. split; [now apply N.eqb_eq|].
+    split; now apply fresh_b_sound.
+  - apply existsb_exists in H6 as [[s [sp re]] [Hin Q]]. apply existsb_exists in Q as [b [_ Q]]. cbn [fst] in Q.
+    exists b, s, sp, re. split; [exact Hin|]. apply N.ltb_lt in Q. exact Q.
+Qed.
